@@ -100,6 +100,7 @@ fn base(rng: &mut Rng, thorough: bool) -> Knobs {
         selfsame_p: 0,
         extra_clone_p: 2 + rng.below(3) as u32,
         consuming_on_adopted: false,
+        drain_consuming: false,
         dtor_downgrade_p: 0,
     }
 }
@@ -209,6 +210,7 @@ pub fn knobs(profile: &str, thorough: bool, rng: &mut Rng) -> Knobs {
             // handles are also given up through try_unwrap / make_mut / the raw API
             if rng.chance(1, 4) {
                 kn.consuming_on_adopted = true;
+                kn.drain_consuming = rng.chance(1, 2);
                 set_w(&mut kn, K::TryUnwrap, 3);
                 set_w(&mut kn, K::MakeMut, 3);
                 set_w(&mut kn, K::DropValue, 2);
@@ -235,12 +237,20 @@ pub fn knobs(profile: &str, thorough: bool, rng: &mut Rng) -> Knobs {
                 set_w(&mut kn, K::IncStrong, 1);
                 set_w(&mut kn, K::DecStrong, 3);
             }
+            // ... or through the calls that consume or replace a handle
+            if rng.chance(1, 3) {
+                kn.drain_consuming = true;
+                set_w(&mut kn, K::MakeMut, 2);
+                set_w(&mut kn, K::TryUnwrap, 1);
+                set_w(&mut kn, K::DropValue, 1);
+            }
         }
         "C04" => {
             recording_discipline(rng, &mut kn);
             with_weak(rng, &mut kn, true);
             with_unmatched(rng, &mut kn);
             kn.drain = true;
+            kn.drain_consuming = rng.chance(1, 4);
             if rng.chance(1, 4) {
                 kn.dtor_downgrade_p = 1 + rng.below(3) as u32;
             }
@@ -381,6 +391,7 @@ pub fn knobs(profile: &str, thorough: bool, rng: &mut Rng) -> Knobs {
             with_weak(rng, &mut kn, true);
             with_selfsame(rng, &mut kn);
             kn.consuming_on_adopted = true;
+            kn.drain_consuming = rng.chance(1, 2);
             set_w(&mut kn, K::TryUnwrap, 5);
             set_w(&mut kn, K::MakeMut, 6);
             set_w(&mut kn, K::SlotMakeMut, 4);
